@@ -1,4 +1,5 @@
 import Refine.Lemmas.SolChunk
+import Refine.Lemmas.SolIndex
 
 /-!
   C09, part 2 — text formats and the multi-rank chunk loops (`Refine/Model/Sol.lean`, tied by the streams
@@ -92,7 +93,36 @@ theorem reader_chunk_pos (nnode : Int) (np : Nat) (h1 : 1 ≤ nnode) (h2 : nnode
   simp only [Nat.reducePow]
   omega
 
+/-- **field_index_is_vertex_index**: after the pass that the chunk loop equals (`chunked_read_eq_whole`), the local
+    node `l` that `ref_node_local` returns for global `g` (and for no other global — the node-id invariant) holds
+    entry `g` of the file if the file has one, and is untouched otherwise; no other entry is ever stored there -/
+theorem field_index_is_vertex_index (nnode : Int) (gl : List Nat) (g : Int) (l : Nat)
+    (hloc : refNodeLocal gl g = some l) (hinj : ∀ g', refNodeLocal gl g' = some l → g' = g)
+    (rows : List Row) (arr : List Row) (hl : l < arr.length) (h0 : 0 ≤ g) :
+    (scatterRows false nnode gl 0 rows arr)[l]? = if g < rows.length then rows[g.toNat]? else arr[l]? := by
+  have := scatterRows_getElem? nnode gl g l hloc hinj rows 0 arr hl
+  simpa [h0] using this
+
 /-! ### non-vacuity: an anisotropic tensor whose six components all differ -/
+
+example : refNodeLocal [2, 0, 1] 0 = some 1 ∧ ∀ g', refNodeLocal [2, 0, 1] g' = some 1 → g' = 0 := by
+  refine ⟨by decide, ?_⟩
+  intro g' h
+  unfold refNodeLocal at h
+  split at h
+  · cases h
+  · rename_i hg
+    have e2 : (2 = g'.toNat) ↔ g'.toNat = 2 := eq_comm
+    have e0 : (0 = g'.toNat) ↔ g'.toNat = 0 := eq_comm
+    have e1 : (1 = g'.toNat) ↔ g'.toNat = 1 := eq_comm
+    simp only [List.idxOf?, List.findIdx?_cons, List.findIdx?_nil, beq_iff_eq, e0, e1, e2] at h
+    by_cases h2 : g'.toNat = 2
+    · simp [h2] at h
+    · by_cases h0 : g'.toNat = 0
+      · omega
+      · by_cases h1 : g'.toNat = 1
+        · simp [h1] at h
+        · simp [h2, h0, h1] at h
 
 /-- the list reader: the stream is the list of remaining rows -/
 def listRd (k : Nat) (s : List Row) : Except Status (List Row × List Row) := .ok (s.take k, s.drop k)
